@@ -534,6 +534,13 @@ impl Env {
         pool.zero_frame(0);
         let p4_phys = pool.phys[0];
         let foreign = npool - 1;
+        // The foreign page stands in for every frame outside the pool, in particular for the data frames of
+        // most huge pages. No correct mapper operation reads it; in every other history it is all zero, so that
+        // code which wrongly takes a mapped data frame for a page table sees an "empty table" (and frees it /
+        // unlinks it: visible to the C10 and C01 oracles) rather than garbage entries.
+        if seed % 2 == 0 {
+            pool.zero_frame(foreign);
+        }
         let mut mmu = None;
         let mut args = vec![mask, kind.code(), kind.rec_index().unwrap_or(0), p4_phys, seed];
         if let MapperKind::Recursive(r) = kind {
